@@ -807,3 +807,309 @@ Proof.
   destruct (Z.of_nat (length (c_nis c)) =? 0); [discriminate|]. inv_bind Hr. inversion Hr; subst; cbn [ri_routes ri_route_bits] in *.
   apply fold_max_ge. apply in_flat_map. exists e. split; [exact He|]. apply in_map. exact Hin.
 Qed.
+
+(* ------------------------------------------------------------------ C05 on the model: port pairing *)
+Definition rev_link (l : link) : link := (snd l, fst l).
+Definition paired (a b : option link) : Prop :=
+  match a, b with
+  | Some l, Some l' => l' = rev_link l
+  | None, None => True
+  | _, _ => False
+  end.
+
+Lemma fill_free_paired : forall s1 s2 ls,
+  Forall2 paired s1 s2 ->
+  Forall2 paired (fst (fill_free s1 ls)) (fst (fill_free s2 (map rev_link ls))) /\
+  snd (fill_free s2 (map rev_link ls)) = map rev_link (snd (fill_free s1 ls)).
+Proof.
+  induction s1 as [|a s1 IH]; intros s2 ls H; inversion H as [|? b ? s2' Hab Hrest]; subst.
+  - cbn. auto.
+  - destruct a as [l|], b as [l'|]; cbn [paired] in Hab; try contradiction.
+    + cbn [fill_free]. specialize (IH s2' ls Hrest).
+      destruct (fill_free s1 ls) as [r1 m1]. destruct (fill_free s2' (map rev_link ls)) as [r2 m2].
+      cbn [fst snd] in *. destruct IH. split; [constructor; [exact Hab|assumption]|assumption].
+    + destruct ls as [|x xs]; cbn [fill_free map].
+      * split; [constructor; [exact I|exact Hrest]|reflexivity].
+      * specialize (IH s2' xs Hrest).
+        destruct (fill_free s1 xs) as [r1 m1]. destruct (fill_free s2' (map rev_link xs)) as [r2 m2].
+        cbn [fst snd] in *. destruct IH. split; [constructor; [reflexivity|assumption]|assumption].
+Qed.
+
+(* what a fold of `place` over directed edges leaves in the slots *)
+Section Place.
+  Context {E : Type} (dirf : E -> Z) (pairf : E -> link).
+  Definition placed (es : list E) (len : Z) (i : nat) (l : link) : Prop :=
+    exists e, In e es /\ py_index len (dirf e) = Ok i /\ pairf e = l.
+
+  Lemma place_inv what slots dir l slots' : place what slots dir l = Ok slots' ->
+    exists i, py_index (Z.of_nat (length slots)) dir = Ok i /\ nth i slots None = None /\ slots' = update_nth i (Some l) slots.
+  Proof.
+    unfold place. intros H. inv_bind H. destruct (nth a slots None) eqn:En; [discriminate|].
+    inversion H; subst. exists a. auto.
+  Qed.
+
+  Lemma py_index_lt len dir i : py_index len dir = Ok i -> (Z.of_nat i < len).
+  Proof.
+    unfold py_index. destruct ((0 <=? dir) && (dir <? len)) eqn:A; [intros H; inversion H; lia|].
+    destruct ((dir <? 0) && (0 <=? len + dir)) eqn:B; [intros H; inversion H; lia|discriminate].
+  Qed.
+
+  Lemma nth_update_same {A} i (x : A) l d : (i < length l)%nat -> nth i (update_nth i x l) d = x.
+  Proof. revert i. induction l as [|y ys IH]; intros [|i] H; cbn in *; try lia; auto. apply IH. lia. Qed.
+  Lemma nth_update_other {A} i j (x : A) l d : i <> j -> nth j (update_nth i x l) d = nth j l d.
+  Proof. revert i j. induction l as [|y ys IH]; intros [|i] [|j] H; cbn; auto; try congruence. Qed.
+
+  Lemma fold_place_spec what : forall es init res,
+    foldM (fun sl e => place what sl (dirf e) (pairf e)) es init = Ok res ->
+    length res = length init /\
+    (forall i l, nth i init None = Some l -> nth i res None = Some l) /\
+    (forall i l, placed es (Z.of_nat (length init)) i l -> nth i res None = Some l) /\
+    (forall i l, nth i res None = Some l -> nth i init None = Some l \/ placed es (Z.of_nat (length init)) i l).
+  Proof.
+    induction es as [|e es IH]; intros init res H; cbn [foldM] in H.
+    - inversion H; subst. repeat split; auto. intros i l (e & [] & _).
+    - inv_bind H. destruct (place_inv _ _ _ _ _ E0) as (k & Hk & Hfree & ->).
+      destruct (IH _ _ H) as (L & K1 & K2 & K3). rewrite update_nth_length in L, K2, K3.
+      pose proof (py_index_lt _ _ _ Hk) as Hlt.
+      split; [exact L|]. split; [|split].
+      + intros i l Hi. apply K1. destruct (Nat.eq_dec k i) as [->|Hne]; [congruence|].
+        rewrite nth_update_other by exact Hne. exact Hi.
+      + intros i l (e' & [<-|Hin] & Hi & Hl).
+        * apply K1. rewrite Hk in Hi. inversion Hi; subst. apply nth_update_same. lia.
+        * apply K2. exists e'. auto.
+      + intros i l Hi. destruct (K3 i l Hi) as [Hu|(e' & Hin & Hi' & Hl)].
+        * destruct (Nat.eq_dec k i) as [->|Hne].
+          -- rewrite nth_update_same in Hu by lia. inversion Hu; subst. right. exists e. cbn. auto.
+          -- rewrite nth_update_other in Hu by exact Hne. left. exact Hu.
+        * right. exists e'. cbn. auto.
+  Qed.
+End Place.
+
+Lemma nth_repeat_none {A} n i : nth i (repeat (@None A) n) None = None.
+Proof. revert i. induction n; intros [|i]; cbn; auto. Qed.
+
+Lemma Forall2_nth {A B} (R : A -> B -> Prop) l m da db :
+  length l = length m -> (forall i, (i < length l)%nat -> R (nth i l da) (nth i m db)) -> Forall2 R l m.
+Proof.
+  revert m. induction l as [|x xs IH]; intros [|y ys] Hl H; cbn in Hl; try lia; constructor.
+  - apply (H 0%nat). cbn. lia.
+  - apply IH; [lia|]. intros i Hi. apply (H (S i)). cbn. lia.
+Qed.
+
+(* the heart of C05: if the directed incoming and outgoing link ends of a router mirror each other
+   (same port index, reversed link), then after slotting -- directed ends by index, undirected ends
+   into the free slots in corresponding order -- every port index holds a link and its reverse, or
+   nothing in both directions *)
+Theorem slots_paired {E} (in_dir out_dir : E -> Z) (in_pair out_pair : E -> link)
+        (dir_in dir_out : list E) (nd_in : list link) (degree : nat) inc0 out0 :
+  foldM (fun sl e => place "incoming" sl (in_dir e) (in_pair e)) dir_in (repeat None degree) = Ok inc0 ->
+  foldM (fun sl e => place "outgoing" sl (out_dir e) (out_pair e)) dir_out (repeat None degree) = Ok out0 ->
+  (forall i l, placed in_dir in_pair dir_in (Z.of_nat degree) i l <->
+               placed out_dir out_pair dir_out (Z.of_nat degree) i (rev_link l)) ->
+  Forall2 paired (fst (fill_free inc0 nd_in)) (fst (fill_free out0 (map rev_link nd_in))) /\
+  snd (fill_free out0 (map rev_link nd_in)) = map rev_link (snd (fill_free inc0 nd_in)).
+Proof.
+  intros Hi Ho Hsym.
+  destruct (fold_place_spec in_dir in_pair _ _ _ _ Hi) as (L1 & _ & A2 & A3).
+  destruct (fold_place_spec out_dir out_pair _ _ _ _ Ho) as (L2 & _ & B2 & B3).
+  rewrite repeat_length in *.
+  apply fill_free_paired. apply (Forall2_nth paired inc0 out0 None None); [lia|].
+  intros i Hlt. unfold paired.
+  destruct (nth i inc0 None) as [l|] eqn:Ei.
+  - destruct (A3 i l Ei) as [Hn|Hp]; [rewrite nth_repeat_none in Hn; discriminate|].
+    apply Hsym in Hp. rewrite (B2 _ _ Hp). reflexivity.
+  - destruct (nth i out0 None) as [l'|] eqn:Eo; [|exact I].
+    destruct (B3 i l' Eo) as [Hn|Hp]; [rewrite nth_repeat_none in Hn; discriminate|].
+    assert (Hl : l' = rev_link (rev_link l')) by (destruct l'; reflexivity). rewrite Hl in Hp.
+    apply Hsym in Hp. rewrite (A2 _ _ Hp) in Ei. discriminate.
+Qed.
+
+(* the link ends at router nm mirror each other in graph g: a link u -> nm arriving on port k has a
+   reverse link nm -> u leaving on port k, and vice versa *)
+Definition mirrored (g : graph) (nm : string) : Prop :=
+  forall k u,
+    (exists e, In e (filter is_link (edges_to g nm)) /\ e_dst_dir e = Some k /\ e_src e = u) <->
+    (exists e', In e' (filter is_link (edges_from g nm)) /\ e_src_dir e' = Some k /\ e_dst e' = u).
+
+Lemma edges_to_dst g nm e : In e (edges_to g nm) -> e_dst e = nm.
+Proof. unfold edges_to. intros H. apply filter_In in H. destruct H as (_ & H). apply str_eqb_eq in H. exact H. Qed.
+Lemma edges_from_src g nm e : In e (edges_from g nm) -> e_src e = nm.
+Proof. unfold edges_from. intros H. apply filter_In in H. destruct H as (_ & H). apply str_eqb_eq in H. exact H. Qed.
+
+Lemma mapM_total {A B} (f : A -> res B) (h : A -> B) l l' :
+  mapM f l = Ok l' -> (forall x y, f x = Ok y -> y = h x) -> l' = map h l.
+Proof.
+  intros H Hh. apply mapM_Forall2 in H. induction H as [|x y l l' Hxy _ IH]; cbn; [reflexivity|].
+  rewrite (Hh _ _ Hxy), IH. reflexivity.
+Qed.
+
+Theorem compile_router_paired d g rt rid r :
+  mirrored g (n_name rt) -> compile_router d g rt rid = Ok r -> Forall2 paired (cr_in r) (cr_out r).
+Proof.
+  intros Hm. unfold compile_router. cbv zeta.
+  set (nm := n_name rt) in *.
+  set (ins := filter is_link (edges_to g nm)). set (outs := filter is_link (edges_from g nm)).
+  set (degree := match find_rtd d (n_desc rt) with
+                 | Some r0 => match rt_degree r0 with Some k => k | None => Z.of_nat (length ins) end
+                 | None => Z.of_nat (length ins) end).
+  destruct (degree <? 0) eqn:Ed; [discriminate|]. intros H. inv_bind H.
+  (* the undirected outgoing links are the reversed undirected incoming links *)
+  assert (Hnd : a1 = map rev_link (map (fun e => (e_src e, e_dst e)) (filter (fun e => negb (is_some (e_dst_dir e))) ins))).
+  { rewrite map_map. eapply mapM_total; [exact E1|]. intros x y Hy. cbv beta in Hy.
+    destruct (find_edge g (e_dst x) (e_src x)); [|discriminate]. inversion Hy. reflexivity. }
+  set (nd_in := map (fun e => (e_src e, e_dst e)) (filter (fun e => negb (is_some (e_dst_dir e))) ins)) in *.
+  assert (Hdeg : Z.to_nat degree = Z.to_nat degree) by reflexivity.
+  destruct (slots_paired (fun e => opt_default 0 (e_dst_dir e)) (fun e => opt_default 0 (e_src_dir e))
+              (fun e => (e_src e, e_dst e)) (fun e => (e_src e, e_dst e))
+              (filter (fun e => is_some (e_dst_dir e)) ins) (filter (fun e => is_some (e_src_dir e)) outs)
+              nd_in (Z.to_nat degree) a a0 E E0) as (P1 & P2).
+  { (* directed ends mirror each other *)
+    intros i l. unfold placed. split.
+    - intros (e & He & Hi & Hl). apply filter_In in He. destruct He as (He & Hs).
+      destruct (e_dst_dir e) as [k|] eqn:Ek; [|discriminate]. cbn [opt_default] in Hi.
+      destruct (proj1 (Hm k (e_src e)) (ex_intro _ e (conj He (conj Ek eq_refl)))) as (e' & He' & Hk' & Hd').
+      exists e'. split; [apply filter_In; split; [exact He'|rewrite Hk'; reflexivity]|].
+      rewrite Hk'. cbn [opt_default]. split; [exact Hi|].
+      subst l. unfold rev_link. cbn. apply filter_In in He'. destruct He' as (He' & _).
+      apply filter_In in He. destruct He as (He & _).
+      rewrite (edges_from_src _ _ _ He'), (edges_to_dst _ _ _ He), Hd'. reflexivity.
+    - intros (e' & He' & Hi & Hl). apply filter_In in He'. destruct He' as (He' & Hs).
+      destruct (e_src_dir e') as [k|] eqn:Ek; [|discriminate]. cbn [opt_default] in Hi.
+      destruct (proj2 (Hm k (e_dst e')) (ex_intro _ e' (conj He' (conj Ek eq_refl)))) as (e & He & Hk & Hsrc).
+      exists e. split; [apply filter_In; split; [exact He|rewrite Hk; reflexivity]|].
+      rewrite Hk. cbn [opt_default]. split; [exact Hi|].
+      apply filter_In in He'. destruct He' as (He' & _). apply filter_In in He. destruct He as (He & _).
+      pose proof (edges_from_src _ _ _ He') as S1. pose proof (edges_to_dst _ _ _ He) as S2.
+      destruct l as [lu lv]. unfold rev_link in Hl. cbn in Hl. inversion Hl; subst. rewrite S2, Hsrc, S1. reflexivity. }
+  rewrite Hnd in H. fold nd_in in H.
+  destruct (fill_free a nd_in) as [inc li] eqn:F1. destruct (fill_free a0 (map rev_link nd_in)) as [out lo] eqn:F2.
+  cbn [fst snd] in P1, P2. destruct li; [|discriminate]. destruct lo; [|discriminate].
+  inversion H; subst; cbn. exact P1.
+Qed.
+
+From FV Require Import BuildProofs.
+
+Lemma ginv_mirrored g nm : ginv g -> mirrored g nm.
+Proof.
+  intros (Hs & He) k u. split.
+  - intros (e & Hin & Hk & Hu). apply filter_In in Hin. destruct Hin as (Hin & Hl).
+    pose proof (edges_to_dst _ _ _ Hin) as Hd.
+    unfold edges_to in Hin. apply filter_In in Hin. destruct Hin as (Hv & _).
+    apply (edges_view_In _ _ He) in Hv. destruct (Hs e Hv Hl) as (e' & He' & M1 & M2 & M3 & M4 & M5).
+    exists e'. split; [|split; congruence]. apply filter_In. split; [|exact M3].
+    unfold edges_from. apply filter_In. split; [apply (edges_view_In _ _ He); exact He'|].
+    apply String.eqb_eq. congruence.
+  - intros (e & Hin & Hk & Hu). apply filter_In in Hin. destruct Hin as (Hin & Hl).
+    pose proof (edges_from_src _ _ _ Hin) as Hd.
+    unfold edges_from in Hin. apply filter_In in Hin. destruct Hin as (Hv & _).
+    apply (edges_view_In _ _ He) in Hv. destruct (Hs e Hv Hl) as (e' & He' & M1 & M2 & M3 & M4 & M5).
+    exists e'. split; [|split; congruence]. apply filter_In. split; [|exact M3].
+    unfold edges_to. apply filter_In. split; [apply (edges_view_In _ _ He); exact He'|].
+    apply String.eqb_eq. congruence.
+Qed.
+
+(* C05, model level, for EVERY description: whatever build accepts, every compiled router has, at every
+   port index, the same neighbour on its input and on its output side (or both unused). *)
+Theorem C05_model d g c :
+  build d = Ok g -> compile d g = Ok c ->
+  forall r, In r (c_rts c) -> Forall2 paired (cr_in r) (cr_out r).
+Proof.
+  intros Hb Hc r Hr. unfold compile in Hc. inv_bind Hc. inversion Hc; subst c; clear Hc. cbn in Hr.
+  destruct (mapM_In _ _ _ _ E3 Hr) as (p & _ & Hp).
+  eapply compile_router_paired; [|exact Hp]. apply ginv_mirrored. eapply build_ginv; eauto.
+Qed.
+
+(* every occupied incoming slot holds a link that ends at this router *)
+Definition slots_all (P : link -> Prop) (s : list (option link)) : Prop := forall l, In (Some l) s -> P l.
+
+Lemma update_nth_In {A} i (x : A) l y : In y (update_nth i x l) -> y = x \/ In y l.
+Proof.
+  revert i. induction l as [|z zs IH]; intros [|i]; cbn; try tauto.
+  - intros [H|H]; auto.
+  - intros [H|H]; [auto|]. destruct (IH _ H); auto.
+Qed.
+
+Lemma fold_place_all {E} (P : link -> Prop) what (dirf : E -> Z) (pairf : E -> link) es : forall init res,
+  (forall e, In e es -> P (pairf e)) -> slots_all P init ->
+  foldM (fun sl e => place what sl (dirf e) (pairf e)) es init = Ok res -> slots_all P res.
+Proof.
+  induction es as [|e es IH]; intros init res HP Hinit H; cbn [foldM] in H.
+  - inversion H; subst; exact Hinit.
+  - inv_bind H. eapply IH; [intros; apply HP; cbn; auto| |exact H].
+    destruct (place_inv _ _ _ _ _ E0) as (k & _ & _ & ->).
+    intros l Hl. apply update_nth_In in Hl. destruct Hl as [Hl|Hl]; [inversion Hl; subst; apply HP; cbn; auto|auto].
+Qed.
+
+Lemma fill_free_all (P : link -> Prop) : forall s ls, slots_all P s -> (forall l, In l ls -> P l) -> slots_all P (fst (fill_free s ls)).
+Proof.
+  induction s as [|a s IH]; intros ls Hs Hl; [cbn; exact Hs|].
+  destruct a as [x|]; cbn [fill_free].
+  - specialize (IH ls (fun l H => Hs l (or_intror H)) Hl). destruct (fill_free s ls) as [r m]. cbn [fst] in *.
+    intros l [H|H]; [apply Hs; left; exact H|apply IH; exact H].
+  - destruct ls as [|y ys]; [exact Hs|].
+    specialize (IH ys (fun l H => Hs l (or_intror H)) (fun l H => Hl l (or_intror H))).
+    destruct (fill_free s ys) as [r m]. cbn [fst] in *.
+    intros l [H|H]; [inversion H; subst; apply Hl; left; reflexivity|apply IH; exact H].
+Qed.
+
+Lemma compile_router_in_ends d g rt rid r :
+  compile_router d g rt rid = Ok r -> cr_name r = n_name rt /\ slots_all (fun l => snd l = n_name rt) (cr_in r).
+Proof.
+  unfold compile_router. cbv zeta. set (nm := n_name rt).
+  set (ins := filter is_link (edges_to g nm)).
+  match goal with |- (if ?c then _ else _) = _ -> _ => destruct c; [discriminate|] end.
+  intros H. inv_bind H.
+  assert (Hins : forall e, In e ins -> snd (e_src e, e_dst e) = nm).
+  { intros e He. apply filter_In in He. destruct He as (He & _). cbn. eapply edges_to_dst; eauto. }
+  assert (Ha : slots_all (fun l => snd l = nm) a).
+  { eapply fold_place_all; [| |exact E].
+    - intros e He. apply Hins. apply filter_In in He. tauto.
+    - intros l Hl. apply repeat_spec in Hl. discriminate. }
+  set (nd_in := map (fun e => (e_src e, e_dst e)) (filter (fun e => negb (is_some (e_dst_dir e))) ins)) in *.
+  assert (Hnd : forall l, In l nd_in -> snd l = nm).
+  { intros l Hl. apply in_map_iff in Hl. destruct Hl as (e & <- & He). apply Hins. apply filter_In in He. tauto. }
+  pose proof (fill_free_all _ _ _ Ha Hnd) as Hf.
+  destruct (fill_free a nd_in) as [inc li]. destruct (fill_free a0 a1) as [out lo]. cbn [fst] in Hf.
+  destruct li; [|discriminate]. destruct lo; [|discriminate]. inversion H; subst; cbn. split; [reflexivity|exact Hf].
+Qed.
+
+(* C05 on the emitted netlist: what the model emits for router r at port index i *)
+Definition port_wired (nw : bool) (x : rt_inst) (i : nat) : Prop :=
+  (exists u, let li := (u, r_name x) in let lo := (r_name x, u) in
+     nth_error (r_req_in x) i = Some [SSig (req_name li)] /\ nth_error (r_rsp_out x) i = Some [rsp_name li] /\
+     nth_error (r_req_out x) i = Some [req_name lo] /\ nth_error (r_rsp_in x) i = Some [SSig (rsp_name lo)] /\
+     (nw = true -> nth_error (r_wide_in x) i = Some [SSig (wide_name li)] /\
+                   nth_error (r_wide_out x) i = Some [wide_name lo]))
+  \/
+  (nth_error (r_req_in x) i = Some [SZero] /\ nth_error (r_rsp_out x) i = Some [] /\
+   nth_error (r_req_out x) i = Some [] /\ nth_error (r_rsp_in x) i = Some [SZero] /\
+   (nw = true -> nth_error (r_wide_in x) i = Some [SZero] /\ nth_error (r_wide_out x) i = Some [])).
+
+Lemma Forall2_nth_error {A B} (R : A -> B -> Prop) l m i a :
+  Forall2 R l m -> nth_error l i = Some a -> exists b, nth_error m i = Some b /\ R a b.
+Proof.
+  intros H. revert i. induction H as [|x y l m Hxy _ IH]; intros [|i] Hi; cbn in *; try discriminate.
+  - inversion Hi; subst. eauto.
+  - apply IH. exact Hi.
+Qed.
+
+Theorem C05_model_netlist d g c ri r x :
+  build d = Ok g -> compile d g = Ok c -> In r (c_rts c) -> emit_rt d ri r = Ok x ->
+  forall i, (i < length (cr_in r))%nat -> port_wired (d_nw d) x i.
+Proof.
+  intros Hb Hc Hr Hx i Hi.
+  pose proof (C05_model _ _ _ Hb Hc r Hr) as Hp.
+  assert (Hends : slots_all (fun l => snd l = cr_name r) (cr_in r)).
+  { unfold compile in Hc. inv_bind Hc. inversion Hc; subst c; clear Hc. cbn in Hr.
+    destruct (mapM_In _ _ _ _ E3 Hr) as (p & _ & Hq). apply compile_router_in_ends in Hq. destruct Hq as (-> & Hq). exact Hq. }
+  unfold emit_rt in Hx. cbv zeta in Hx. inv_bind Hx. inversion Hx; subst x; clear Hx. unfold port_wired. cbn.
+  destruct (nth_error (cr_in r) i) as [sa|] eqn:Ea; [|apply nth_error_None in Ea; lia].
+  destruct (Forall2_nth_error _ _ _ _ _ Hp Ea) as (sb & Eb & Hab).
+  unfold in_src, out_sig. rewrite !nth_error_map, Ea, Eb. cbn [option_map].
+  destruct sa as [[u v]|], sb as [l'|]; cbn [paired] in Hab; try contradiction.
+  - left. exists u. assert (v = cr_name r) by (apply (Hends (u, v)); eapply nth_error_In; eauto). subst v l'.
+    unfold rev_link. cbn [fst snd]. split; [reflexivity|]. split; [reflexivity|]. split; [reflexivity|].
+    split; [reflexivity|]. intros ->. rewrite !nth_error_map, ?Ea, ?Eb. split; reflexivity.
+  - right. split; [reflexivity|]. split; [reflexivity|]. split; [reflexivity|].
+    split; [reflexivity|]. intros ->. rewrite !nth_error_map, ?Ea, ?Eb. split; reflexivity.
+Qed.
